@@ -50,7 +50,7 @@ class Link:
 
 
 class Unrle(rleabs.Engine):
-    def __init__(self, prog, fn, codes, max_states=900000):
+    def __init__(self, prog, fn, codes, max_states=300000):
         self.prog, self.fn, self.m = prog, fn, fn.module
         self.final = False
         self.max_states = max_states
